@@ -380,7 +380,38 @@ func runC07(r *Run, verifDir string) {
 					return ok && b.Name() == "cap" && len(c.Call.Args) == 1 && c.Call.Args[0] == buf
 				}
 				// Grow(buf, need-cap(buf)) executed under need > cap(buf): the amount is positive and the result has cap >= need
-				if sub, ok := growCall.Call.Args[1].(*ssa.BinOp); ok && sub.Op == token.SUB && sub.X == ssa.Value(needPhi) && isCapOf(sub.Y, other) {
+				// Grow(b, need-cap(b)) reaches need only when len(b) == cap(b): the buffer entering the loop must be a
+				// fresh make([]byte, n) of this call (and need changes once, so growth happens at most once)
+				freshFull := false
+				if hp, ok := other.(*ssa.Phi); ok {
+					freshFull = true
+					for _, e := range hp.Edges {
+						if e == ssa.Value(ph) || e == ssa.Value(hp) {
+							continue
+						}
+						// make([]byte, N) with constant N: a slice of a fresh [N]byte over its whole length
+						if sl, isSl := e.(*ssa.Slice); isSl && sl.Low == nil && sl.Max == nil {
+							if al, isAl := sl.X.(*ssa.Alloc); isAl {
+								if at, isArr := al.Type().(*types.Pointer).Elem().Underlying().(*types.Array); isArr {
+									if h, ok := constIntVal(sl.High); sl.High == nil || (ok && h == at.Len()) {
+										continue
+									}
+								}
+							}
+						}
+						mk, isMk := e.(*ssa.MakeSlice)
+						if !isMk {
+							freshFull = false
+							continue
+						}
+						l, ok1 := constIntVal(mk.Len)
+						cp, ok2 := constIntVal(mk.Cap)
+						if mk.Len != mk.Cap && !(ok1 && ok2 && l == cp) {
+							freshFull = false
+						}
+					}
+				}
+				if sub, ok := growCall.Call.Args[1].(*ssa.BinOp); ok && freshFull && sub.Op == token.SUB && sub.X == ssa.Value(needPhi) && isCapOf(sub.Y, other) {
 					for _, dc := range dominatingConds(growCall.Block()) {
 						if bo, ok := dc.cond.(*ssa.BinOp); ok && dc.outcome && bo.Op == token.GTR && bo.X == ssa.Value(needPhi) && isCapOf(bo.Y, other) {
 							capOK = true
